@@ -357,7 +357,7 @@ def _rv_run(self):
     depd = []
     for dep in walk_tasks(self.deps):
         depd.append(digest(dep.result))
-    value = {'name': self.name, 'v': build_shape(self.shape), 'deps': depd}
+    value = {'name': self.name, 'v': build_shape(self.shape), 'deps': depd, 'gen': (self.context or {}).get('gen')}
     hook = os.environ.get('VERIF_RUN_HOOK')
     if hook:
         import importlib
